@@ -135,6 +135,31 @@ func genC20(g *Gen, i int) Group {
 		}
 		entries = append(entries[:pos:pos], append([]Module{{Kind: "add", Reg: bad}}, entries[pos:]...)...)
 	}
+	// one type registered plainly and under a name, then a module entry removing the type: Remove concerns the
+	// unkeyed registration only, inside a module as in a direct call
+	var extraTail []Op
+	if i%4 == 1 {
+		t := 0
+		used := map[int]bool{}
+		for _, r := range regs {
+			for _, id := range regOutputs(r) {
+				used[id.ty] = true
+			}
+		}
+		for used[t] && t < 8 {
+			t++
+		}
+		if t < 8 {
+			nm := 1 + g.n(3)
+			plain := &Reg{ID: g.nextRid, Life: g.life([3]int{1, 1, 1}), Form: Form{Kind: "ctor", Rets: []int{t}}, Dyn: []int{t}, CFail: []bool{false}}
+			g.nextRid++
+			named := &Reg{ID: g.nextRid, Life: g.life([3]int{1, 1, 1}), Form: Form{Kind: "ctor", Rets: []int{t}}, Dyn: []int{t}, CFail: []bool{false}, Name: nm}
+			g.nextRid++
+			regs = append(regs, named)
+			entries = append([]Module{{Kind: "add", Reg: plain}, {Kind: "add", Reg: named}, {Kind: "remove", Ty: t}}, entries...)
+			extraTail = []Op{{Kind: "count"}, {Kind: "contains", Ty: t}, {Kind: "containskeyed", Ty: t, Name: nm}}
+		}
+	}
 	tree := g.moduleTree(entries, 0)
 	if i%8 == 6 {
 		// two modules defined from one and the same list of entries (a nil entry first): group members, so
@@ -155,7 +180,7 @@ func genC20(g *Gen, i int) Group {
 		sid := 1 + i
 		tree = append(tree, Module{Kind: "module", Name: 1 + g.n(6), Mods: shared, Shared: sid}, Module{Kind: "module", Name: 1 + g.n(6), Mods: shared, Shared: sid})
 	}
-	tail := queryOps(regs)
+	tail := append(extraTail, queryOps(regs)...)
 	tail = append(tail, Op{Kind: "build"})
 	h := defaultHist()
 	h.NOps = 8
@@ -345,11 +370,17 @@ func genContainer(g *Gen, prop string, i int) Group {
 	if prop == "C07" && i%7 == 3 {
 		return g.aliasRemovalCase(i)
 	}
+	if (prop == "C11" || prop == "C10" || prop == "C13" || prop == "C12") && i%6 == 2 {
+		return g.shutdownCase(i)
+	}
 	if (prop == "C03" || prop == "C08" || prop == "C05" || prop == "C01" || prop == "C02") && i%11 == 4 {
 		return g.dupDepCase(i)
 	}
 	if (prop == "C02" || prop == "C05" || prop == "C07" || prop == "C08" || prop == "C03") && i%11 == 9 {
 		return g.embeddedCase(i)
+	}
+	if (prop == "C10" || prop == "C14" || prop == "C12") && i%8 == 3 {
+		return g.multiOutCase(i)
 	}
 	if (prop == "C01" || prop == "C02" || prop == "C03" || prop == "C10" || prop == "C07") && i%8 == 6 {
 		if i%16 == 14 {
@@ -953,7 +984,7 @@ func (g *Gen) multiOutCase(i int) Group {
 	tys := g.rnd.Perm(8)
 	pick := func(k int) int {
 		t := tys[k]
-		if g.p(0.4) {
+		if g.p(0.6) {
 			t += 8
 		}
 		return t
@@ -1369,4 +1400,51 @@ func (g *Gen) dupDepCase(i int) Group {
 		Op{Kind: "resolve", P: 0, H: 1, Ty: tys[2]}, Op{Kind: "resolve", P: 0, H: 1, Ty: tys[2]}, Op{Kind: "resolve", P: 0, H: 0, Ty: tys[2]},
 		Op{Kind: "closeprovider", P: 0})
 	return Group{Cases: []Case{{Name: fmt.Sprintf("%d/dup-dep", i), Ops: ops}}}
+}
+
+// shutdownCase (C11, C10, C13): an application shutting down - the context of a request scope is cancelled and,
+// while the scope's watcher goroutine is still disposing the scope's instances, the provider (or an ancestor scope)
+// is closed. The owner has to wait for the scope before it disposes anything of its own: every scope before any
+// singleton, descendants before ancestors. Close bodies are slow in these cases so that the overlap is real.
+func (g *Gen) shutdownCase(i int) Group {
+	tys := g.rnd.Perm(8)
+	db := &Reg{ID: g.nextRid, Life: Singleton, Form: Form{Kind: "ctor", Rets: []int{8 + tys[0]}}, Dyn: []int{8 + tys[0]}, CFail: []bool{false}}
+	g.nextRid++
+	tx := &Reg{ID: g.nextRid, Life: Scoped, Form: Form{Kind: "ctor", Params: []Param{{Dep: Dep{Ty: 8 + tys[0]}}}, Rets: []int{8 + tys[1]}}, Dyn: []int{8 + tys[1]}, CFail: []bool{false}}
+	g.nextRid++
+	tr := &Reg{ID: g.nextRid, Life: Transient, Form: Form{Kind: "ctor", Rets: []int{8 + tys[2]}}, Dyn: []int{8 + tys[2]}, CFail: []bool{false}}
+	g.nextRid++
+	ops := addOps([]*Reg{db, tx, tr})
+	ops = append(ops, Op{Kind: "build"})
+	// an application scope (own context 1), request scopes below it or next to it (own contexts)
+	ops = append(ops, Op{Kind: "createscope", P: 0, Parent: 0, Ctx: 1}) // 1
+	ops = append(ops, Op{Kind: "resolve", P: 0, H: 1, Ty: 8 + tys[1]})
+	nreq := 1 + g.n(3)
+	for k := 0; k < nreq; k++ {
+		parent := 0
+		if g.p(0.6) {
+			parent = 1
+		}
+		ops = append(ops, Op{Kind: "createscope", P: 0, Parent: parent, Ctx: 2 + k})
+		h := 2 + k
+		ops = append(ops, Op{Kind: "resolve", P: 0, H: h, Ty: 8 + tys[1]})
+		if g.p(0.6) {
+			ops = append(ops, Op{Kind: "resolve", P: 0, H: h, Ty: 8 + tys[2]})
+		}
+	}
+	c := 1 + g.n(1+nreq)
+	switch {
+	case c >= 2 && g.p(0.35):
+		// the request's context is cancelled, then its parent scope (or the provider) is closed
+		ops = append(ops, Op{Kind: "cancel", Ctx: c, NoWait: true})
+		if g.p(0.5) {
+			ops = append(ops, Op{Kind: "close", P: 0, H: 1})
+		} else {
+			ops = append(ops, Op{Kind: "closeprovider", P: 0})
+		}
+	default:
+		ops = append(ops, Op{Kind: "cancel", Ctx: c, NoWait: true}, Op{Kind: "closeprovider", P: 0})
+	}
+	ops = append(ops, Op{Kind: "closeprovider", P: 0}, Op{Kind: "resolve", P: 0, H: 0, Ty: 8 + tys[0]})
+	return Group{Cases: []Case{{Name: fmt.Sprintf("%d/shutdown", i), Ops: ops, SlowClose: true}}}
 }
